@@ -110,4 +110,17 @@ func genCodec(repo string) {
 	fmt.Fprintf(&g.body, "def lz4LenChecked : Bool := %v\ndef jpegGrayChecked : Bool := %v\n", lz4Checked, jpegChecked)
 	fmt.Fprintf(&g.body, "def crcStoredLittleEndian : Bool := %v\ndef crcVerifiedOnRead : Bool := %v\n", crcLE, crcVerified)
 	facts.Extra["lz4LenChecked"], facts.Extra["jpegGrayChecked"], facts.Extra["crcVerifiedOnRead"] = lz4Checked, jpegChecked, crcVerified
+	// SerializeData: the empty value is short-circuited before compression
+	emptyFirst := false
+	if fd := dv.funcDecl("", "SerializeData"); fd != nil {
+		src := strings.NewReplacer(" ", "", "\t", "", "\n", "").Replace(dv.src(fd))
+		i := strings.Index(src, "ifdata==nil||len(data)==0{return[]byte{},nil}")
+		j := strings.Index(src, "switchcompress.format")
+		if j < 0 {
+			j = strings.Index(src, "compress.format")
+		}
+		emptyFirst = i >= 0 && (j < 0 || i < j)
+	}
+	fmt.Fprintf(&g.body, "/-- `SerializeData` returns the empty serialization for an empty value before any compression -/\ndef serializeEmptyShortCircuit : Bool := %v\n", emptyFirst)
+	facts.Extra["serializeEmptyShortCircuit"] = emptyFirst
 }
